@@ -44,8 +44,8 @@ func evalBatch(c *core.Ctx, hs []Hist) []verdict {
 		t := h.toks()
 		reqs = append(reqs, drv.Req{Fn: "run", Args: toArgs(t)})
 		ct := append([]string{}, t...)
-		for _, d := range out.Docs {
-			it, _, _ := readBack(d)
+		for k, d := range out.Docs {
+			it, _, _ := readBackM(d, out.marks(k))
 			ct = append(ct, it...)
 		}
 		reqs = append(reqs, drv.Req{Fn: "check", Args: toArgs(ct)})
@@ -71,7 +71,7 @@ func evalBatch(c *core.Ctx, hs []Hist) []verdict {
 		if len(v.impl.Docs) != n {
 			continue
 		}
-		if len(run) != 1+4*n || string(run[0]) != "ok" {
+		if len(run) != 1+5*n || string(run[0]) != "ok" {
 			v.tie = fmt.Sprintf("model did not answer (run): %q", run)
 			continue
 		}
@@ -80,12 +80,12 @@ func evalBatch(c *core.Ctx, hs []Hist) []verdict {
 			continue
 		}
 		for k := 0; k < n; k++ {
-			mdoc, msheet, mlog, mwants := string(run[1+4*k]), string(run[2+4*k]), string(run[3+4*k]), string(run[4+4*k])
+			mdoc, msheet, mlog, mwants, mlater := string(run[1+5*k]), string(run[2+5*k]), string(run[3+5*k]), string(run[4+5*k]), string(run[5+5*k])
 			v.modelDoc = append(v.modelDoc, mdoc)
 			doc := v.impl.Docs[k]
 			if string(chk[1+k]) != "1" && v.prop == "" {
 				v.prop = fmt.Sprintf("context %d: document %q", k, doc)
-				v.shape = shapeOf(h, k, doc)
+				v.shape = shapeOfM(doc, v.impl.marks(k))
 			}
 			if mdoc != doc && v.tie == "" {
 				v.tie = fmt.Sprintf("context %d: implementation %q, model %q", k, doc, mdoc)
@@ -93,12 +93,15 @@ func evalBatch(c *core.Ctx, hs []Hist) []verdict {
 			if msheet != v.impl.Sheets[k] && v.tie == "" {
 				v.tie = fmt.Sprintf("context %d stylesheet: implementation %q, model %q", k, v.impl.Sheets[k], msheet)
 			}
+			if later := v.impl.laterSheets(k); mlater != later && v.tie == "" {
+				v.tie = fmt.Sprintf("context %d stylesheets of the further middlewares: implementation %q, model %q", k, later, mlater)
+			}
 			// the abstract log the theorems speak about is what can be read back from the bytes
-			_, defs, uses := readBack(doc)
+			_, defs, uses := readBackM(doc, v.impl.marks(k))
 			var mdefs []string
 			useCount := map[string]int{}
 			for _, l := range strings.Split(mlog, "\n") {
-				if strings.HasPrefix(l, "D ") {
+				if strings.HasPrefix(l, "D ") || strings.HasPrefix(l, "G ") {
 					mdefs = append(mdefs, l)
 				} else if strings.HasPrefix(l, "U ") {
 					useCount[l]++
@@ -124,16 +127,43 @@ func evalBatch(c *core.Ctx, hs []Hist) []verdict {
 }
 
 // shapeOf is a narrow decidable key for known findings (none are listed for C12 at present).
-func shapeOf(h Hist, ctx int, doc string) string {
-	_, defs, _ := readBack(doc)
+func shapeOf(h Hist, ctx int, doc string) string { return shapeOfM(doc, nil) }
+
+func shapeOfM(doc string, marks []mark) string {
+	_, defs, _ := readBackM(doc, marks)
 	seen := map[string]bool{}
 	for _, d := range defs {
+		if strings.HasPrefix(d, "G ") {
+			seen["registered "+d[2:]] = true
+			continue
+		}
 		if seen[d] {
 			return "definition-repeated"
+		}
+		if seen["registered "+d[2:]] {
+			return "inlined-after-registered-with-a-middleware"
 		}
 		seen[d] = true
 	}
 	return "use-not-served-or-before-definition"
+}
+
+func (o implOut) marks(k int) []mark {
+	if k < len(o.Later) {
+		return o.Later[k].Marks
+	}
+	return nil
+}
+
+// laterSheets is what the stylesheet endpoints of the further middlewares of context k serve, one per line.
+func (o implOut) laterSheets(k int) string {
+	var sb strings.Builder
+	if k < len(o.Later) {
+		for _, s := range o.Later[k].Sheets {
+			sb.WriteString(s + "\n")
+		}
+	}
+	return sb.String()
 }
 
 func hashToks(t []string) string {
@@ -283,10 +313,10 @@ func newFamily(name string) *family {
 }
 
 func Run(c *core.Ctx) {
-	c.Rule = "histories over 4 scripts (one sharing its name with a class id, one sometimes without a call) x 4 component classes x 4 plain names (one equal to a class id) in all 17 container forms (nested to depth 2) x context derivations (WithNonce, WithChildren, ClearChildren, context.WithValue, context.WithCancel) at arbitrary points - before the first registration, between uses, nested - with every use going through any of the Go contexts derived so far; 3 once handles (block or fixed component, bodies nested to depth 2, possibly using their own handle) x 1-3 contexts (plain or through NewCSSMiddleware with a random class subset, with or without nonce); single-form and form-pair sweeps, all histories up to the tier's length over a 13-use alphabet, random histories; 2-4 page requests through ONE middleware instance (registered and unregistered classes and scripts, pages rendered inside the handler one after the other and concurrently, every pair of the 13 uses split over two requests); probe templates include elements whose class and on* attributes sit under attribute-level if/else blocks nested to depth 3; distinct non-trivial = distinct histories in which some item is used at least twice in one context (suppression matters)"
+	c.Rule = "histories over 4 scripts (one sharing its name with a class id, one sometimes without a call) x 4 component classes x 4 plain names (one equal to a class id) in all 17 container forms (nested to depth 2) x context derivations (WithNonce, WithChildren, ClearChildren, context.WithValue, context.WithCancel, a request carrying the context sent through a further NewCSSMiddleware with its own classes and path: stacked on the request's middleware or below an initialised context, before any render, after renders, after WithNonce) at arbitrary points - before the first registration, between uses, nested - with every use going through any of the Go contexts derived so far; 3 once handles (block or fixed component, bodies nested to depth 2, possibly using their own handle) x 1-3 contexts (plain or through NewCSSMiddleware with a random class subset, with or without nonce); single-form and form-pair sweeps, all histories up to the tier's length over a 13-use alphabet, random histories; 2-4 page requests through ONE middleware instance (registered and unregistered classes and scripts, pages rendered inside the handler one after the other and concurrently, every pair of the 13 uses split over two requests); probe templates include elements whose class and on* attributes sit under attribute-level if/else blocks nested to depth 3, among constant attributes, and elements all of whose attributes are constant except one or two expression attributes placed at a chosen branch path (then-only, else-only, else of else, ...); distinct non-trivial = distinct histories in which some item is used at least twice in one context (suppression matters)"
 	c.Trusted = append(c.Trusted,
-		"specification spec/RegistrySpec.v (abstract log, at_most_once, before_first_use, wanted uses, held classes, check_log)",
-		"the reading of a document back into definitions and uses (harness readBack; cross-checked against the model's own log on every history)",
+		"specification spec/RegistrySpec.v (abstract log with registrations, at_most_once, before_first_use, never_inlined_once_registered, wanted uses, held classes, check_log)",
+		"the reading of a document back into definitions and uses, and the placing of a further middleware's registrations at the document offset where the context passed through it (harness readBackM; cross-checked against the model's own log on every history)",
 		"extraction: ExtrOcamlBasic only; ocaml/driver.ml; history token codec in coq/extract/X12.v",
 		"Go harness internal/c12 (executes uses in the order generated code does; probe templates check that order against the real generator) and the Go toolchain")
 	c.Assume = append(c.Assume,
@@ -369,6 +399,37 @@ func Run(c *core.Ctx) {
 			}
 		}
 	}
+	// a further middleware reached by a context that already carries templ state: stacked on the request's own
+	// middleware or below a plain initialised context, before any render, after a render, after WithNonce; every
+	// pair of uses around it, through the context it hands on and through the one it was given
+	mwClasses := [][]Class{{kk0, {Kind: "L", N: "x"}}, {{Kind: "K", C: k1}}}
+	for mi, mc := range mwClasses {
+		m := COp{Ctx: 0, Op: Op{Tag: "D", Text: "mw", Classes: mc}}
+		nz := COp{Ctx: 0, Op: Op{Tag: "D", Text: "nonce", Nonce: "n7"}}
+		m1 := m
+		m1.Op.Via = 1
+		via := func(o Op, v int) COp { o.Via = v; return COp{Ctx: 0, Op: o} }
+		for _, a := range alpha {
+			for _, b := range alpha {
+				for ci, cs := range cfgsets {
+					if ci != mi {
+						// the other combinations are left to the random histories
+						hs = append(hs, Hist{Cfgs: cs, Ops: []COp{via(a, 0), m, via(b, 1)}})
+						continue
+					}
+					hs = append(hs, Hist{Cfgs: cs, Ops: []COp{m, via(a, 1), via(b, 0)}})
+					hs = append(hs, Hist{Cfgs: cs, Ops: []COp{via(a, 0), m, via(b, 1)}})
+					hs = append(hs, Hist{Cfgs: cs, Ops: []COp{via(a, 0), m, via(b, 0)}})
+					hs = append(hs, Hist{Cfgs: cs, Ops: []COp{nz, via(a, 1), m1, via(b, 2)}})
+				}
+			}
+		}
+	}
+	for _, h := range hs {
+		for _, s := range mwSituations(h) {
+			c.Hist("exhaustive: " + s)
+		}
+	}
 	c.Extra["exhaustive_alphabet"] = len(alpha)
 	c.Extra["exhaustive_max_len"] = maxLen
 	c.Extra["exhaustive_histories"] = len(hs)
@@ -396,6 +457,9 @@ func Run(c *core.Ctx) {
 			c.Hist("random: length 9-40")
 		default:
 			c.Hist("random: length 41-2000")
+		}
+		for _, s := range mwSituations(h) {
+			c.Hist("random: " + s)
 		}
 		for _, cf := range h.Cfgs {
 			if cf.MW {
